@@ -412,6 +412,45 @@ def run(ctx):
                         ctx.where(NB, sb), key='PAIR:%s:creation-store-without-allocator' % NB.path.split('::{')[0])
     ctx.anchor(n_cs >= 1, 'stores to Node.creation')
 
+    # one number space, one counter: a second allocator for the same node name hands out the same pids again
+    ctx.rule('C16.6-single-allocator', 'the node owns exactly one PidAllocator (one field of that type, one construction per node constructor): two allocators over the same (node, creation) number the same pid space independently, '
+             'so the k-th pid of one equals the k-th pid of the other', floor=2)
+    ND = ctx.F.adts.get('edp_node::node::Node')
+    if ctx.anchor(ND is not None, 'edp_node::node::Node'):
+        fl = [f['n'] for f in ND['variants'][0]['fields'] if 'PidAllocator' in f['ty']]
+        if len(fl) == 1:
+            ctx.ok('C16.6-single-allocator', 'field', 'Node.%s' % fl[0])
+        else:
+            ctx.bad('C16.6-single-allocator', 'field', 'Node holds %d PidAllocator fields (%s): pids come from more than one counter' % (len(fl), fl), key='TYPE:edp_node::node::Node:allocator-fields:%d' % len(fl))
+        for NB in P.all('edp_node'):
+            news = [bb for bb, t in NB.calls() if any(n.endswith('PidAllocator::new') for n in callee_names(t))]
+            if not news:
+                continue
+            inst = NB.path.split('::{')[0].rsplit('::', 1)[-1]
+            if len(news) == 1:
+                ctx.ok('C16.6-single-allocator', inst + ':new', 'one PidAllocator::new', ctx.where(NB, news[0]))
+            else:
+                ctx.bad('C16.6-single-allocator', inst + ':new', '%s constructs %d pid allocators for one node' % (inst, len(news)), ctx.where(NB, news[1]), key='WHO:%s:allocators-constructed:%d' % (NB.path.split('::{')[0], len(news)))
+
+    # "references are pairwise distinct": whatever hands a reference to a caller hands out the one it has just made
+    ctx.rule('C16.4-returned-references-fresh', 'every Ok(reference) returned by Node::monitor carries the value of the make_reference() call of that very invocation: a reference looked up from an earlier call and returned again is handed out twice',
+             floor=1)
+    MB = ctx.body('edp_node::node::Node::monitor::{closure#0}')
+    if MB is not None:
+        mrs = [bb for bb, t in MB.calls() if is_call_to(t, 'edp_node::node::Node::make_reference')]
+        if ctx.anchor(len(mrs) == 1, 'Node::monitor: one make_reference call'):
+            from ..core import unwrap as _unw16
+            k16 = 0
+            for bb, j, st in MB.stmts():
+                if st['k'] == '=' and st['rv']['k'] == 'agg' and st['rv'].get('adt') == 'core::result::Result' and st['rv'].get('var') == 'Ok' and (st['pl']['l'] == 0 or 0 in MB.derived_locals([st['pl']['l']])):
+                    k16 += 1
+                    ro = _unw16(MB.origin(st['rv']['ops'][0]))[0]
+                    if ro[0] == 'call' and ro[2] == mrs[0]:
+                        ctx.ok('C16.4-returned-references-fresh', 'monitor:Ok#%d' % k16, 'the reference made by this call', ctx.where(MB, ln=st['ln']))
+                    else:
+                        ctx.bad('C16.4-returned-references-fresh', 'monitor:Ok#%d' % k16, 'Node::monitor returns a reference that does not come from its own make_reference() call (%s): the same reference is handed out by two calls' % (ro[:2],),
+                                ctx.where(MB, ln=st['ln']), key='PROV:edp_node::node::Node::monitor:returns-old-reference')
+
 
 def _vec_elems(B, op):
     """operands of a `vec![a,b,c]` literal feeding op"""
